@@ -259,10 +259,10 @@ class SymInterp(Interp):
         for op, rn in zip(n.ops, n.comparators):
             r = self.eval(rn, fr)
             v = self.compare(op, l, r, n)
-            if isinstance(v, (SArr, Rat)):
+            if isinstance(v, (SArr, Rat, PyModel)):
                 if len(n.ops) > 1:
                     raise AnalysisAbort("chained comparison on array data")
-                return v
+                return v        # an elementwise result (array, series, frame), not a truth value
             if not v:
                 return False
             l = r
